@@ -74,6 +74,7 @@ def run(chk):
     units = [("asmjit/support/%s.cpp" % u, r"asmjit::[A-Za-z_0-9:]+$") for u in ("arenahash", "arenavector", "arenabitset", "arenalist", "arenatree", "arena")]
     units.append(("asmjit/core/string.cpp", r"asmjit::String::[A-Za-z_0-9]+$"))
     units.append(("asmjit/core/compiler.cpp", r"asmjit::ArenaStringBase::[A-Za-z_0-9]+$"))      # header-only container, instantiated here
+    units.append(("asmjit/core/constpool.cpp", r"asmjit::ConstPool::[A-Za-z_0-9]+$"))
     failpure.run(chk, units)
     failpure.run_commit_last(chk, "asmjit/core/codeholder.cpp", r"asmjit::CodeHolder::[a-z_0-9]+$")
     failpure.run_release_not_failed(chk, [("asmjit/core/virtmem.cpp", r"asmjit::VirtMem::[A-Za-z_0-9]+$"), ("asmjit/core/jitallocator.cpp", r"asmjit::JitAllocator")])
